@@ -143,6 +143,14 @@ impl PciTransport {
                     .read_word(device_function, capability.offset + CAP_LENGTH_OFFSET),
             };
 
+            // > 4.1.4 Virtio Structure PCI Capabilities: Values 0x0 to 0x5 specify a Base Address
+            // > register (BAR) [...]. Any other value is reserved for future use.
+            // > The driver MUST ignore any vendor-specific capability structure which has a
+            // > reserved bar value.
+            if struct_info.bar > 5 {
+                continue;
+            }
+
             match cfg_type {
                 VIRTIO_PCI_CAP_COMMON_CFG if common_cfg.is_none() => {
                     common_cfg = Some(struct_info);
